@@ -32,7 +32,10 @@ class Rule:
     ('bool' | 'int' | 'real' | 'oref' | callable(E) -> fresh symbolic value);  leave_args_kind likewise for the list elements."""
 
     def __init__(self, J, Qe=None, Ql=None, modifies=(), enter_kind="oref", leave_kind="oref", depth=None, label="traverse",
-                 ghost_enter=None, ghost_leave=None):
+                 ghost_enter=None, ghost_leave=None, leave_args=None, leave_result=None):
+        # leave_args(E, vars, x, ctx) -> the list handed to `leave` at node x when the child values are not scalars: the contract builds
+        # the list value (of length ctx.nkids(x)) and ASSUMES Ql of every entry itself;  leave_result(E) -> fresh value of the whole traversal
+        self.leave_args, self.leave_result = leave_args, leave_result
         # ghost_enter / ghost_leave(E, vars, x, ctx): ghost code run right after the real callback (may update ghost objects listed in `modifies` only)
         self.ghost_enter, self.ghost_leave = ghost_enter, ghost_leave
         self.J, self.Qe, self.Ql = J, Qe or (lambda E, v, x, val, ctx: True), Ql or (lambda E, v, x, val, ctx: True)
@@ -195,11 +198,14 @@ def apply(eng, rule: Rule, fr, topology, enter, leave, root):
             eng.assume(_zb(rule.J(eng, vars_now(), ENT, LEFT, ctx)))
             args = None
             kind = rule.leave_kind
-            if callable(kind):
+            if rule.leave_args is not None:
+                args = rule.leave_args(eng, vars_now(), xz, ctx)
+            elif callable(kind):
                 raise Unsupported("traverse rule: non-scalar leave values need a fixed number of children (not implemented)")
-            args = PList.fresh(kind, n=nkids(xz), name="kidvals")
-            v = vars_now()
-            eng.assume(z3.ForAll([k], z3.Implies(z3.And(0 <= k, k < nkids(xz)), _zb(rule.Ql(eng, v, kid(xz, k), Sym(sel(args.cols[0], k), kind), ctx)))))
+            else:
+                args = PList.fresh(kind, n=nkids(xz), name="kidvals")
+                v = vars_now()
+                eng.assume(z3.ForAll([k], z3.Implies(z3.And(0 <= k, k < nkids(xz)), _zb(rule.Ql(eng, v, kid(xz, k), Sym(sel(args.cols[0], k), kind), ctx)))))
             ret = eng.call(leave, [xs, args], {})
             if rule.ghost_leave is not None:
                 ctx.ret, ctx.args = ret, args
@@ -216,7 +222,7 @@ def apply(eng, rule: Rule, fr, topology, enter, leave, root):
     eng.assume(_zb(rule.J(eng, vars_now(), S_all, S_all, ctx)))
     if leave is None:
         return None
-    res = _mk_value(eng, rule.leave_kind, "trav")
+    res = rule.leave_result(eng) if rule.leave_result is not None else _mk_value(eng, rule.leave_kind, "trav")
     eng.assume(_zb(rule.Ql(eng, vars_now(), rz, res, ctx)))
     return res
 
